@@ -27,19 +27,12 @@ def queueOkB (s : State) : Bool :=
 /-! ### monitor -/
 
 structure Mon where
-  poisoned : List PoolId := []
   deriving Inhabited
 
 def Mon.init (_ : State) : Mon := {}
 
-def tag (m : Mon) (id : PoolId) (s : String) : String :=
-  if m.poisoned.contains id then s ++ " class=F-farm-2" else s
-
 def check (m : Mon) (pre : State) (op : Op) (res : String) (post : State) : Mon × List String := Id.run do
-  let mut m := m
   let mut fails : List String := []
-  if let some id := C05.endTopUp pre op post then
-    m := { m with poisoned := id :: m.poisoned }
   if !(queueOkB post) then fails := fails ++ ["clause=queue-hygiene"]
   match op with
   | .endBlocks _ =>
@@ -52,10 +45,10 @@ def check (m : Mon) (pre : State) (op : Op) (res : String) (post : State) : Mon 
           -- handled: dequeued, ended at its due height, budget returned
           if !(!(post.queue.any fun e => e.2 = id) && q.endH == p.endH && q.last == p.endH &&
                q.rules.all (fun r => r.remaining == 0)) then
-            fails := fails ++ [tag m id s!"clause=due-not-handled pool={id}"]
+            fails := fails ++ [s!"clause=due-not-handled pool={id}"]
         else if !(C05.sameMap [(id, p)] [(id, q)]) then
           -- exactly once: a pool that is not due is not touched by the EndBlocker
-          fails := fails ++ [tag m id s!"clause=endblock-touched pool={id}"]
+          fails := fails ++ [s!"clause=endblock-touched pool={id}"]
     if !(C05.sameMap pre.farmers post.farmers) then fails := fails ++ ["clause=endblock-farmers"]
   | _ => pure ()
   return (m, fails)
